@@ -192,8 +192,6 @@ def gen_circuit(rng, bad=None):
         arg = {"kind": "none", "vals": []}
         if name in ONE_PARAM:
             arg = {"kind": "scalar", "vals": [enc_num(gen_value(rng))], "np": rng.random() < 0.2}
-            if rng.random() < 0.08:
-                arg["kind"] = rng.choice(["list", "tuple", "array"])
         elif name == "QASMU":
             arg = {"kind": rng.choice(["list", "list", "tuple", "array"]), "vals": [enc_num(gen_value(rng)) for _ in range(3)],
                    "np": rng.random() < 0.2}
